@@ -168,25 +168,6 @@ fn icc_shuffle4_bounded() {
     }
 }
 
-// ------------------------------------------------------------------------------------------------
-// decode_icc: totality on arbitrary (bounded) command/data streams, and output-size discipline.
-// ------------------------------------------------------------------------------------------------
-#[kani::proof]
-#[kani::unwind(12)]
-fn icc_decode_total_small() {
-    let data: [u8; 10] = kani::any();
-    let len: usize = kani::any();
-    kani::assume(len <= 10);
-    let r = decode_icc(&data[..len]);
-    if let Ok(out) = &r {
-        // the declared output size is the first varint
-        let mut cur = Cursor::new(&data[..len]);
-        let declared = varint(&mut cur).unwrap();
-        assert!(out.len() as u64 <= declared.max(128), "[C18] decoded profile never exceeds the declared size");
-    }
-    kani::cover!(r.is_ok());
-}
-
 #[kani::proof]
 fn canary() {
     let b: u8 = kani::any();
